@@ -87,7 +87,7 @@ def wrapped(core_spelling, wrappers, pads=("", " ")):
 
 class C17(PropBase):
     pid = "C17"
-    translators = ["join_sites.py"]
+    translators = ["join_sites.py", "c17_lookup.py"]
     coq_dirs = ["Base", "C17", "Gen"]
     bins = ["c17"]
     rule = ("cases = (code_file, debug_file, debug id text, code id text); strings exhaustive over the alphabet "
@@ -248,7 +248,7 @@ class C17(PropBase):
 
     # ------------------------------------------------------------------ correspondence
     def canon_impl(self, case, ans, profile):
-        return "" if case.startswith("B ") else ans.split("|", 1)[0]
+        return "" if case.startswith("B ") else "|".join(ans.split("|", 2)[:2])      # the eight paths + the lookup(kind) flag
 
     def canon_model(self, case, ans):
         return "" if case.startswith("B ") else ans
